@@ -5,7 +5,8 @@ set -e
 patch="$1"; shift
 d=$(mktemp -d /var/tmp/mut.XXXXXX)
 trap 'rm -rf "$d"' EXIT
-(cd /repo && git ls-files -z | xargs -0 cp --parents -t "$d") 
+REPO="${REPO:-/repo}"
+(cd "$REPO" && git ls-files -z | xargs -0 cp --parents -t "$d" 2>/dev/null || true)
 (cd "$d" && git init -q . >/dev/null 2>&1 && git apply --whitespace=nowarn "$patch") || { echo "PATCH DOES NOT APPLY"; exit 3; }
 cmd="$1"; shift
 /verif/bin/vcgo "$cmd" -repo "$d" "$@"
